@@ -10,7 +10,8 @@ ANCHORS = ["pyoma2.functions.ssi:build_hank", "pyoma2.functions.ssi:SSI_fast", "
 REQUIRED_MONITORS = ["second evaluation from the same auxiliary matrices", "delta-method@SSI_fast+SSI_poles(synthetic factor)", "delta-method@SSI_fast+SSI_poles(factor from data)", "factor-definition@build_hank",
                      "class-uses-the-same-propagation@SSIcov(calc_unc)"]
 ALL_STATES = ["single column factor", "multi column factor", "order < ordmax", "order = ordmax", "l=1", "l=3", "ref subset", "br=2", "br=5"]
-REQUIRED_STATES = ["single column factor", "multi column factor", "order < ordmax", "order = ordmax", "ref subset"]
+REQUIRED_STATES = ["single column factor", "multi column factor", "order < ordmax", "order = ordmax", "ref subset", "column-major Hankel matrix",
+                   "singular values below 1e-8 (small-amplitude records)"]
 RULE = ("Hankel matrices = exact rank-2m product (C01 generator, unit norm) + 1e-3 full-rank part, or estimated from data; 1..3 channels, any reference "
         "subset, br 2..5, orders 2..8 (also below ordmax); covariance factor with 1..20 columns of random directions vec_F(dH_k), or the factor "
         "build_hank returns; Fn_cov compared with the sum of squared central finite differences of the identification itself (eps 1e-6 and 1e-7 must "
@@ -70,7 +71,16 @@ def judge_orders(ctx, tag, ssi, H, br, ordmax, dt, T, orders, sig):
     if gaps < 1e-3:
         ctx.not_judged("relative singular-value gap < 1e-3")
         return
+    Hkeep, Tkeep = np.array(H, copy=True, order="C"), np.array(T, copy=True, order="C")
+    if H.flags.f_contiguous and not H.flags.c_contiguous:
+        ctx.state("column-major Hankel matrix")
+    if s[0] < 1e-8:
+        ctx.state("singular values below 1e-8 (small-amplitude records)")
     Obs, A, C, Q1, Q2, Q3, Q4 = ssi.SSI_fast(H, br, ordmax, calc_unc=True, T=T, nb=nb)
+    ctx.ev("inputs of the identification step unchanged")
+    if not ctx.check(np.array_equal(H, Hkeep) and np.array_equal(T, Tkeep), f"{sig}:identification_modifies_its_inputs",
+                     f"{tag}: SSI_fast(calc_unc=True) changed the Hankel matrix / the factor it was given (column-major input: {bool(H.flags.f_contiguous and not H.flags.c_contiguous)})"):
+        H = Hkeep
     Qkeep = [np.array(q, copy=True) for q in (Q1, Q2, Q3, Q4)]
     Fn, Xi, Phi, Lam, Fc, Xc, Pc = ssi.SSI_poles(Obs, A, C, ordmax, dt, calc_unc=True, Q1=Q1, Q2=Q2, Q3=Q3, Q4=Q4)
     ctx.ev("second evaluation from the same auxiliary matrices")
@@ -125,6 +135,11 @@ def run_synthetic(ctx, rng):
     nb = 1 if rng.random() < 0.35 else int(rng.integers(2, 21))
     T = np.hstack([rng.standard_normal(H.shape).reshape(-1, 1, order="F") for _ in range(nb)])
     orders = sorted({2, n, ordmax} if rng.random() < 0.5 else {n, ordmax})
+    if rng.random() < 0.35:
+        a = float(10 ** rng.uniform(-13, 4))  # the propagation is homogeneous of degree 0 in a common scale of (H, factor)
+        H, T = H * a, T * a
+    if rng.random() < 0.3:
+        H = np.asfortranarray(H)  # e.g. the transpose of a row-major product, a matrix read from column-major storage
     judge_orders(ctx, "delta-method@SSI_fast+SSI_poles(synthetic factor)", ssi, H, br, ordmax, dt, T, orders, "synthetic")
     ctx.state("single column factor" if nb == 1 else "multi column factor")
     ctx.state(f"l={l}")
@@ -147,6 +162,8 @@ def run_data_factor(ctx, rng):
     br = int(rng.integers(2, 6))
     refidx = sorted(int(x) for x in rng.permutation(l)[:r])
     Y = sim(rng, l, int(rng.integers(3000, 8000)))
+    if rng.random() < 0.4:
+        Y = Y * float(10 ** rng.uniform(-6.5, 2))  # records in other units (accelerations in g, displacements in m)
     nb = int(rng.integers(2, 21))
     H, T = ssi.build_hank(Y, Y[refidx], br, "cov_mm", calc_unc=True, nb=nb)
     ordmax = int(min(rng.integers(2, 7), br * l, (br + 1) * r - 1, (br + 1) * l - 1))
